@@ -88,6 +88,13 @@ func vh_IS() {
 		vAssume(vImplies(L <= pre.commit, bt == req.LastIncludedTerm))
 	}
 	preVisible := n.snaps.visibleCount()
+	// a deposed leader may still have an uncommitted configuration in force (AddServer switches at append)
+	if partial == nil && vNondetBool("uncommitted-config-in-force") {
+		vAssume(r.configuration.Index < vMaxIdx)
+		r.committedConfiguration.Index = r.configuration.Index
+		r.configuration.Index = r.configuration.Index + 1 + vNondetU64("cfg.ahead")%4
+		vTag("uncommitted-config-in-force", "yes")
+	}
 	preCommittedIdx := r.committedConfiguration.Index
 	waits := 0
 	n.hook = func(which string) {
@@ -137,7 +144,7 @@ func vh_IS() {
 	vAssert(post.term >= pre.term, "C08.termMono")
 	vAssert(vAnd(resp.Term >= pre.term, resp.Term <= post.durTerm), "C08.reply-term-bounded")
 	vAssert(vAnd(post.durTerm == post.term, post.durVote == post.votedFor), "C02|C08.persisted(N3)")
-	vAssert(vImplies(vAnd(post.term == pre.term, pre.votedFor != ""), post.votedFor == pre.votedFor), "C02|C08.vote-stable(G2)")
+	vAssert(vImplies(vAnd(post.term == pre.term, pre.votedFor != ""), post.votedFor == pre.votedFor), "C01|C02|C07|C08.vote-stable(G2)")
 	vAssert(vImplies(vAnd(pre.state == Leader, post.state != Leader), req.Term > pre.term), "C16.leader-steps-down-only-on-higher-term")
 	// ---- C11.mono
 	vAssert(post.applied >= pre.applied, "C11.applied-monotone")
@@ -215,6 +222,9 @@ func vh_IS() {
 		vAssert(n.fsm.restores == 1, "C10.state-machine-restored-once")
 		vAssert(restoredThrough == n.fsm.through, "C10.restore-from-installed-snapshot")
 		// C10.recvConfig
+		// the whole log was discarded: the configuration in force afterwards is one that is committed (the
+		// snapshot's or the one committed before), never an uncommitted one whose entry is gone
+		vAssert(vOr(r.configuration.Index == cfg.Index, r.configuration.Index <= preCommittedIdx), "C09|C10.no-uncommitted-configuration-in-force-after-log-discard")
 		if cfg.Index > preCommittedIdx {
 			vCover("configuration-installed")
 			vAssert(vAnd(r.configuration.Index == cfg.Index, r.committedConfiguration.Index == cfg.Index), "C10.configuration-from-snapshot")
